@@ -1,6 +1,7 @@
 import ErgoVerif.Lemmas.PermSafe
 import ErgoVerif.Lemmas.HandshakeSec
 import ErgoVerif.Model.CookieSel
+import ErgoVerif.Generated.Acceptor
 import ErgoVerif.Model.NodeAccept
 /-!
 # C15 — remote access control
@@ -424,31 +425,24 @@ theorem C15_effective_cookie_prefix (node opt : Nat) : acceptorCookieOld node op
 
 /-- **Acceptor cookie over time, full statement**: after any sequence of `Acceptor.SetCookie` calls the
     next handshake uses the cookie set last. -/
-def C15_acceptor_setcookie_full : Prop :=
+def C15_acceptor_setcookie_full (pc : Bool) : Prop :=
   ∀ (node opt : Nat) (sets : List Nat), node ≠ 0 →
-    handshakeCookie node (sets.foldl setCookie (startAcc node opt)) =
+    handshakeCookie pc node (sets.foldl setCookie (startAcc node opt)) =
       wantedCookie node (sets.foldl setCookie (startAcc node opt))
 
-/-- refuted by the current code (finding D10b): the accept loop keeps the options it was started with -/
-theorem C15_acceptor_setcookie_counterexample : ¬ C15_acceptor_setcookie_full := by
+/-- **Acceptor cookie over time, for the code as it is**: the accept loop reads the acceptor's options for every
+    incoming connection (regenerated fact), so `Cookie()` reports exactly the cookie peers are checked against. -/
+theorem C15_acceptor_setcookie : C15_acceptor_setcookie_full ErgoVerif.Gen.Acceptor.optionsReadPerConnection := by
+  have h : ErgoVerif.Gen.Acceptor.optionsReadPerConnection = true := by decide
+  rw [h]
+  intro node opt sets _
+  simp [handshakeCookie, wantedCookie]
+
+/-- the code before the repair of D10b: the accept loop kept the options it was started with (regression statement) -/
+theorem C15_acceptor_setcookie_before_fix : ¬ C15_acceptor_setcookie_full false := by
   intro h
   have := h 1 0 [2] (by decide)
   revert this; decide
-
-/-- what the code does instead, for every history: `SetCookie` never changes the cookie handshakes are
-    checked against (it stays the one of C15_effective_cookie), it only changes what `Cookie()` reports;
-    the two agree as long as `SetCookie` is not used -/
-theorem C15_acceptor_setcookie_partial (node opt : Nat) (sets : List Nat) :
-    handshakeCookie node (sets.foldl setCookie (startAcc node opt)) = acceptorCookie node opt ∧
-    (sets = [] → handshakeCookie node (startAcc node opt) = wantedCookie node (startAcc node opt)) := by
-  constructor
-  · have hinv : ∀ (l : List Nat) (s : AccState), (l.foldl setCookie s).hopts = s.hopts := by
-      intro l
-      induction l with
-      | nil => intro s; rfl
-      | cons a l ih2 => intro s; simp [List.foldl_cons, ih2, setCookie]
-    simp [handshakeCookie, hinv, startAcc, acceptorCookie]
-  · intro _; rfl
 
 /-- **Connection between two nodes**: node X dials with route cookie option `r`, node Y's acceptor was
     started with cookie option `a`; they get connected iff the effective cookies coincide (names differ). -/
